@@ -323,6 +323,24 @@ func genC17(seed uint64, run int, tier string) *Case {
 			if r.p(0.5) && len(c.Resources) > 1 {
 				op.Res = []int{0, 1}
 			}
+		case x < 19 && r.p(0.15):
+			// the function a name runs is the one registered under it in this Compile, whatever
+			// other Compiles registered: bound method values of several receivers, a declared function
+			op.Tmpl = "method-identity"
+			kind := pick(r, []string{"method", "method", "methodv"})
+			t1, t2 := pick(r, []string{"A", "B", "C"}), pick(r, []string{"A", "B", "C", "D"})
+			switch r.n(3) {
+			case 0:
+				op.Src, op.Arg = "mt()", t1
+				op.COpts = []COpt{{Kind: "fn", Name: "mt", Fn: kind + ":" + t1}}
+			case 1:
+				op.Src, op.Arg = "mt() & '|' & mu()", t1+"|"+t2
+				op.COpts = []COpt{{Kind: "fn", Name: "mt", Fn: kind + ":" + t1}, {Kind: "fn", Name: "mu", Fn: kind + ":" + t2}}
+			default:
+				op.Src, op.Arg = "mt() & '|' & dt()", t1+"|declared"
+				op.COpts = []COpt{{Kind: "fn", Name: "dt", Fn: "declared"}, {Kind: "fn", Name: "mt", Fn: kind + ":" + t1}}
+			}
+			op.Opts = randOpts(nil)
 		case x < 19 && r.p(0.25):
 			op.Tmpl, op.Src = "call-nested", "Patient.name.os(rs())"
 			op.COpts = []COpt{{Kind: "fn", Name: "os", Fn: "obsS"}, {Kind: "fn", Name: "rs", Fn: "obsRetS"}}
